@@ -311,9 +311,10 @@ OBSERVERS = True  # set per property in _raw: observers after every call only wh
 def seqc(T, cap, labels):
     seq = [ATOM[l] for l in labels]
     capn = "u" if cap is None else str(cap)
-    name = "q_%s_c%s_%s%s" % (tname(T), capn, "__".join(labels), "" if OBSERVERS else "_noobs")
+    mode = {True: 1, False: 0, 1: 1, 0: 0, 2: 2}[OBSERVERS]
+    name = "q_%s_c%s_%s%s" % (tname(T), capn, "__".join(labels), {1: "", 0: "_noobs", 2: "_endobs"}[mode])
     ops = ", ".join("(%s, %d, %d, %d)" % (k, f, w, d) for (_, k, f, w, d) in seq)
-    body = "seqc::<%s>(%s, &[%s], %s);" % (T, "None" if cap is None else "Some(%d)" % cap, ops, "true" if OBSERVERS else "false")
+    body = "seqc::<%s>(%s, &[%s], %d);" % (T, "None" if cap is None else "Some(%d)" % cap, ops, mode)
     i = Inst(name.lower(), body, unwind=max(14, len(seq) + 3),
              note="call sequence [%s] on capacity %s (%s): every result and the abstraction of the real state compared with the reference model" % (
                  ", ".join(labels), capn, T))
@@ -687,6 +688,14 @@ SENDOPS = ["send", "send_timeout", "send_opt_timeout", "try_send", "try_send_opt
 RECVOPS = ["recv", "recv_timeout", "try_recv", "try_recv_rt", "drain", "arecv_start2", "stream_start"]
 
 
+# packs: one sequence exercises every receive kind / every send kind in the same channel state
+DISCBUF_PACK = [["try_send", "try_send", "try_send", "drop_s", "recv_timeout", "recv", "try_recv_rt", "drain"],
+                ["try_send", "try_send", "try_send", "drop_s", "try_recv", "arecv_start0", "stream_start", "try_recv"]]
+DISCSEND_PACK = [["try_send", "drop_r", "send", "send_timeout", "send_opt_timeout", "try_send_opt", "try_send_rt", "try_send_opt_rt", "asend_start0"]]
+CLOSED_PACK = [["try_send", "close_s", "recv", "recv_timeout", "try_recv", "try_recv_rt", "drain", "arecv_start0", "stream_start"],
+               ["try_send", "close_r", "send", "send_timeout", "send_opt_timeout", "try_send", "try_send_opt", "try_send_rt", "try_send_opt_rt", "asend_start0"]]
+
+
 def zd_handoffs():
     """zero-sized droppable payload on the direct hand-off paths (receiver waits first) and the buffer path"""
     return [blocked("ZD", 0, "RECV", ("PARK", 0, 0, 0), "SEND"), blocked("ZD", 0, "RECV_TO", ("WT_ENTRY", 0, 3, 1), "TRY_SEND_OPT"),
@@ -766,10 +775,13 @@ ALLT = ZST + PLAIN + DROPPY
 def _raw(prop, full, with_so=True):
     global OBSERVERS
     # len / is_full / counts / is_closed ... after every call: C18 (reference equivalence), C03, C08, C10, C11, C12
-    OBSERVERS = prop in ("C18", "C03", "C08", "C10", "C11", "C12")
+    # C18 (reference equivalence): after every call.  C03, C08, C10, C11, C12: after the last call of a sequence (the
+    # abstraction function - buffer length, waiting list, counts, owners, len <= cap - is compared after every call anyway)
+    OBSERVERS = 1 if prop == "C18" else (2 if prop in ("C03", "C08", "C10", "C11", "C12") else 0)
     B = lambda outers, peers, types, caps: blocked_matrix(outers, lambda o: peers, types, caps, full)
     L, SO = [], []
     if prop == "C01":
+        L += seqs(DISCBUF_PACK, DROPPY, [None])
         L += B(SEND_OUTERS, RECV_PEERS, DROPPY, [0, 1])
         L += B(RECV_OUTERS, SEND_PEERS, DROPPY, [0, 1])
         L += async_matrix(DROPPY, [0, 1], full)
@@ -818,6 +830,7 @@ def _raw(prop, full, with_so=True):
         else:
             L += SP + RW
     elif prop == "C05":
+        L += seqs(DISCSEND_PACK + [CLOSED_PACK[1]], DROPPY, [1])
         SO += so_seqs(DROPPY, ["closed", "noreceivers", "full", "zero_s"], SENDOPS) if full else []
         L += [i for i in poll_splits(DROPPY, full) if "_sf_diffw" in i.name and "_f1_" in i.name] + seqs(DISCSEND + CLOSEDOPS, DROPPY, [1])
         L += B(SEND_OUTERS, RECV_PEERS + KILL_FOR_SENDER, DROPPY, [0, 1])
@@ -889,6 +902,7 @@ def _raw(prop, full, with_so=True):
         else:
             L += CA
     elif prop == "C10":
+        L += seqs(CLOSED_PACK, DROPPY, [2, 1])
         SO += (so_seqs(DROPPY, ["closed"]) + so_seqs(DROPPY, None, ["close_s", "close_r"])) if full else []
         L += seqs(CLONEPACK_CLOSE, DROPPY, [1])
         L += seqs(CLOSEDOPS, DROPPY, [1, 2])
@@ -909,6 +923,7 @@ def _raw(prop, full, with_so=True):
         else:
             L += CA
     elif prop == "C11":
+        L += seqs(DISCBUF_PACK, DROPPY, [None, 2]) + seqs(DISCSEND_PACK, DROPPY, [1])
         SO += (so_seqs(DROPPY, ["nosenders", "noreceivers"]) + so_seqs(DROPPY, None, ["drop_s", "drop_r"])) if full else []
         L += seqs(CLONEPACK_DISC, DROPPY, [1, 2])
         L += seqs(DISCBUF, DROPPY, [2, None]) + seqs(DISCSEND, DROPPY, [1])
@@ -998,8 +1013,10 @@ def _raw(prop, full, with_so=True):
         if full:
             L += seqs(singles, SEQT, [0, 1, 2, None])
             L += seqs(CURATED, SEQT, [0, 1, 2, None])
+            L += seqs(REFILL2, SEQT, [2])
             L += pick(seqs([s for s in all_sequences(2)], SEQT, [1]), 60)
             SO += so_seqs(SEQT)
+            L += seqs(DISCBUF_PACK, SEQT, [None, 2]) + seqs(DISCSEND_PACK + CLOSED_PACK, SEQT, [1, 2])
             L += seqs(HALFCLOSE + TRYPARK, SEQT, [0, 1]) + seqs_at(REWAKE_AT, SEQT) + seqs(RING1, SEQT, [1]) + seqs(RING0, SEQT, [0])
             L += seqs(QRING + STALE2, SEQT, [2])
             L += seqs(REFILL3 + DISCSEND + CLOSEDOPS + CLONEPACK_CLOSE + CLONEPACK_DISC, SEQT, [1]) + seqs_at(REWAKE2_AT + DRAIN2_AT, SEQT) + seqs(DISCBUF, SEQT, [2])
@@ -1062,10 +1079,10 @@ def instances(prop, tier):
 
 
 QUICK_PER_PATTERN = 3
-QUICK_N = 28
+QUICK_N = 26
 QUICK_MUST_MAX = 20
 MUST = {
-    "C01": [r"_abw_sleep_.*_n1$", r"^[ab]_zd_", r"asend_start2__asend_drop0"],
+    "C01": [r"_abw_sleep_.*_n1$", r"^[ab]_zd_", r"asend_start2__asend_drop0", r"drop_s__recv_timeout__recv__try_recv_rt__drain", r"drop_s__try_recv__arecv_start0__stream_start"],
     "C02": [r"asend_start2__asend_drop|arecv_start2__arecv_drop", r"__recv_timeout__try_send__arecv_poll", r"_c2_try_send__try_send__asend_start0__(try_recv|recv)__",
             r"asend_start1__send_timeout__try_recv",
             r"rot_w3__asend_start0__asend_start1__asend_start2__asend_drop1", r"rot_q1__",
@@ -1075,21 +1092,21 @@ MUST = {
     "C04": [r"^u_ptr_", r"^s_(u32|big|pad)_recv_to_wt_entry_(park|wait_entry)",
             r"^q_(u8|u32|usize|pad)_.*asend_poll0w1__try_recv"],
     "C05": [r"^d_.*_sf_st2_.*_f1_", r"__(close_r|drop_r)__asend_drop0", r"^b_zd", r"^s_.*send_opt_to_.*_(wait_entry|wait_precas|park)_f1_",
-            r"^pp_.*_sf_diffw_.*_f1_", r"try_send__drop_r__(send|send_timeout|send_opt_timeout|asend_start0)__try_send"],
+            r"^pp_.*_sf_diffw_.*_f1_", r"drop_r__send__send_timeout__send_opt_timeout|close_r__send__send_timeout"],
     "C06": [r"^b_.*_c1_send.*_arecv$", r"^b_.*_send_.*_drop_r(_async)?$", r"__arecv_start0__asend_poll0w0", r"^b_.*_recv_.*_drop_s(_async)?$",
             r"rot_w\d__"],
     "C07": [r"^d_(u32|big|pad)_c0_rf_st2_", r"_n1$", r"register_waker", r"poll_exists", r"_st5_"],
-    "C08": [r"^q_(unit|za)_", r"^w_.*try_send$", r"send_timeout__try_recv",
+    "C08": [r"^q_(unit|za)_", r"^w_.*try_send$",
             r"__try_recv__(send_timeout__send_timeout|send_opt_timeout__send_opt_timeout|asend_start0__asend_start1)__",
-            r"_c1_try_send__asend_start0__asend_start1__(recv_timeout|recv|try_recv_rt)__try_recv$", r"_c1_try_send__asend_start0__asend_start1__(try_recv|arecv_start0|stream_start)__try_recv$"],
+            r"_c1_try_send__asend_start0__asend_start1__(recv_timeout|recv|try_recv_rt)__try_recv(_endobs)?$", r"_c1_try_send__asend_start0__asend_start1__(try_recv|arecv_start0|stream_start)__try_recv(_endobs)?$"],
     "C09": [r"drop_s__clone_r[01]__clone_r[23]", r"drop_r__clone_s[01]__clone_s[23]", r"_s0k\dp\d_arecv$", r"_s0k\dp\d_asend$",
             r"convert_r"],
     "C10": [r"close_[sr]__clone_s[01]__clone_s[23]__clone_r",
             r"drop_[rs]__close_[sr]", r"rot_w\d__.*__close_[sr]__", r"rot_q1__try_send__try_send__close_s",
-            r"try_send__close_s__"],
+            r"close_s__recv__recv_timeout__try_recv", r"close_r__send__send_timeout"],
     "C11": [r"drop_s__clone_r[01]__clone_r[23]", r"drop_r__clone_s[01]__clone_s[23]", r"drop_[sr]_async",
             r"rot_w\d__.*__drop_[sr]__", r"rot_q1__.*__drop_s",
-            r"try_send__try_send__drop_s__(recv_timeout|recv|try_recv_rt|drain)__", r"try_send__try_send__drop_s__(arecv_start0|stream_start|try_recv)__", r"try_send__drop_r__"],
+            r"drop_s__recv_timeout__recv__try_recv_rt__drain", r"drop_s__try_recv__arecv_start0__stream_start", r"drop_r__send__send_timeout__send_opt_timeout"],
     "C12": [r"close_[sr]__clone_s[01]__clone_s[23]__clone_r", r"drop_s__clone_r[01]__clone_r[23]", r"drop_r__clone_s[01]__clone_s[23]", r"drop_[sr]_async",
             r"drop_[rs]__close_[sr]", r"convert_r"],
     "C13": [r"recv_timeout__try_send__arecv_poll", r"asend_start1__send_timeout__try_recv", r"^s_.*_(send_opt_to|send_to|recv_to)_wt_entry_(park|wait_precas|timed_precancel)_f1", r"_nop$",
@@ -1106,7 +1123,7 @@ MUST = {
             r"asend_start1__asend_poll0w1__|arecv_start1__arecv_poll0w1__"],
     "C18": [r"_c2_try_send__try_send__asend_start0__try_recv__",
             r"drop_[rs]__close_[sr]", r"rot_w3__arecv_start0__arecv_start1__drop_s", r"rot_q1__.*__try_recv__try_send", r"__try_recv__send_timeout__send_timeout__", r"asend_start0__try_send_rt__", r"_c1_convert_r$",
-            r"_c1_try_send__asend_start0__asend_start1__recv_timeout__", r"try_send__try_send__drop_s__recv_timeout__", r"asend_start1__asend_poll0w1__try_recv", r"close_[sr]__clone_s[01]__clone_s[23]__clone_r"],
+            r"_c1_try_send__asend_start0__asend_start1__recv_timeout__", r"_cu_.*drop_s__recv_timeout__recv__try_recv_rt__drain", r"_cu_.*drop_s__try_recv__arecv_start0__stream_start", r"drop_r__send__send_timeout__send_opt_timeout", r"close_s__recv__recv_timeout__try_recv", r"close_r__send__send_timeout", r"asend_start1__asend_poll0w1__try_recv", r"close_[sr]__clone_s[01]__clone_s[23]__clone_r"],
     "C19": [r"^n_drain_",
             r"rot_w\d__asend_start0__asend_start1__drain", r"rot_q1__try_send__try_send__(drain|asend_start0)",
             r"asend_start0__asend_start1__drain__asend_poll1w1"],
